@@ -374,6 +374,32 @@ def do_replay(binary, check, vals):
     return p.returncode, p.stdout.strip(), p.stderr.strip()
 
 
+CORNER = {"u16": [0x1234, 80, 1, 256, 32526, 65535, 0], "u32": [0x01020304, 0x10813FA8, 1, 0xFFFFFFFF, 0], "u8": [17, 34, 51, 68, 0, 255], "bool": [1, 0]}
+
+
+def enumerate_witness(binary, check, ins, fixed, label, cap=400):
+    """corner-value candidates (values whose bytes are all different, so that any byte/slot swap shows), executed on the real code"""
+    import itertools
+    doms = []
+    for pos, (a, t) in enumerate(ins):
+        if a in fixed:
+            doms.append([fixed[a]])
+        else:
+            d = CORNER[t]
+            if t in ("u8", "u32"):   # give neighbouring inputs different values
+                d = d[pos % 4:] + d[:pos % 4] if t == "u8" else [((v + pos * 0x01010101) & 0xFFFFFFFF) if v == 0x01020304 else v for v in d]
+            doms.append(d[:3] if len(ins) > 4 else d)
+    n = 0
+    for vals in itertools.product(*doms):
+        n += 1
+        if n > cap:
+            break
+        rc, out, err = do_replay(binary, check, list(vals))
+        if rc not in (0, None) and (label + ":") in err:
+            return list(vals)
+    return None
+
+
 def decode_playback(pb, ins, fixed):
     """byte vectors of the concrete-playback test, in kani::any() order -> values for all inputs of the check"""
     free = [a for a, t in ins if a not in fixed]
@@ -490,48 +516,72 @@ def run(tier="quick", seed=0, pid="C06"):
     except OSError:
         pass
 
-    # failures: counterexample by concrete playback, replay with plain rustc on the same real files
+    # failures -> failing input -> replay on the real files with plain rustc.
+    #  (i)  witness generator: a small deterministic enumeration of byte-order-revealing corner values, each candidate EXECUTED
+    #       against the real code (the replay binary); milliseconds.
+    #  (ii) if none violates the clause: Kani's own counterexample (`-Z concrete-playback`, ~10x slower than verification), replayed.
     if failing:
-        bad_h = sorted(set(v[0][0] for v in failing.values()))   # one proof per failing label is enough
-        pb = {}
-        with concurrent.futures.ThreadPoolExecutor(min(16, len(bad_h))) as ex:
-            futs = [ex.submit(run_kani, crate, [h], timeout, cmds, True, "target_pb%d" % i) for i, h in enumerate(bad_h)]
-            for f in futs:
-                rc2, so2, se2, _ = f.result()
-                if rc2 is not None:
-                    pb.update(parse_kani(so2))
         binary, berr = build_replay(wd, cmds)
         ins_of = dict(HARNESS)
         proof_of = {p: (n, f) for p, n, f in PROOFS}
+        found, need_pb = {}, {}
+        for lab in sorted(failing):
+            pname, cid, desc, loc = failing[lab][0]
+            name, fixed = proof_of[pname]
+            if binary is None:
+                continue
+            if not ins_of[name]:
+                found[lab] = ([], "concrete check (no inputs)")
+                continue
+            w = enumerate_witness(binary, name, ins_of[name], fixed, lab)
+            if w is not None:
+                found[lab] = (w, "witness generator (corner-value enumeration executed on the real code)")
+            else:
+                need_pb[lab] = pname
+        pb = {}
+        bad_h = sorted(set(need_pb.values()))
+        if bad_h:
+            with concurrent.futures.ThreadPoolExecutor(min(16, len(bad_h))) as ex:
+                futs = [ex.submit(run_kani, crate, [h], timeout, cmds, True, "target_pb%d" % i) for i, h in enumerate(bad_h)]
+                for f in futs:
+                    rc2, so2, se2, _ = f.result()
+                    if rc2 is not None:
+                        pb.update(parse_kani(so2))
         for lab in sorted(failing):
             pname, cid, desc, loc = failing[lab][0]
             name, fixed = proof_of[pname]
             ins = ins_of[name]
-            tests = (pb.get("h_" + pname) or {}).get("playback") or []
-            mine = [t for t in tests if t[0] != "cover" and t[1].startswith(lab + ":")] or [t for t in tests if t[0] != "cover"]
-            vals = decode_playback(mine[0][2] if mine else None, ins, fixed) if ins else []
+            origin = None
+            if lab in found:
+                vals, origin = found[lab]
+            else:
+                tests = (pb.get("h_" + pname) or {}).get("playback") or []
+                mine = [t for t in tests if t[0] != "cover" and t[1].startswith(lab + ":")] or [t for t in tests if t[0] != "cover"]
+                vals = decode_playback(mine[0][2] if mine else None, ins, fixed) if ins else []
+                origin = "Kani counterexample (-Z concrete-playback)"
             cex = dict(zip([a for a, _ in ins], vals)) if vals is not None else None
-            w = None
             if binary is None:
                 w = dict(failing_input=None, note=berr)
             elif vals is None:
-                w = dict(failing_input=None, note="Kani printed no concrete playback values for h_%s" % pname)
+                w = dict(failing_input=None, note="no corner-value candidate violated the clause and Kani printed no concrete playback values for h_%s" % pname)
             else:
                 rcr, out, err = do_replay(binary, name, vals)
                 m = re.search(r"panicked at [^\n]*\n?(.*)", err, re.S)
                 msg = (m.group(1) if m else err).strip().split("\n")[0]
-                if rcr not in (0, None) and lab.split(".safety")[0] in err or (rcr not in (0, None) and lab.endswith(".safety")):
-                    w = dict(failing_input=cex if cex else {"(no inputs)": "concrete check"}, cmd=replay_cmd(name, vals), observed=msg[:400],
-                             how="plain rustc build of the same generated crate (real files by #[path]/span) run on Kani's counterexample; the clause panicked")
+                hit = rcr not in (0, None) and ((lab + ":") in err or lab.endswith(".safety"))
+                if hit:
+                    w = dict(failing_input=cex if cex else {"(no inputs)": "concrete check"}, found_by=origin, cmd=replay_cmd(name, vals), observed=msg[:400],
+                             how="plain rustc build of the same generated crate (real files by #[path]/span) run on this input; the clause panicked")
                 elif rcr not in (0, None):
-                    w = dict(failing_input=None, note="replay failed on a DIFFERENT clause first: %s; counterexample %s" % (msg[:200], cex))
+                    w = dict(failing_input=None, note="replay failed on a DIFFERENT clause first: %s; input %s (%s)" % (msg[:200], cex, origin))
                 else:
-                    w = dict(failing_input=None, note="replay of Kani's counterexample with rustc did not violate the clause; counterexample %s" % cex)
+                    w = dict(failing_input=None, note="replay with rustc did not violate the clause; input %s (%s)" % (cex, origin))
             rel_fn = REAL.get(name, [(None, None)])[0]
             src = None
             if rel_fn[1] in lines:
                 src = "%s:%d" % lines[rel_fn[1]]
-            res["failures"].append(dict(label=lab, fn=(rel_fn[1] or name), msg="Kani check %s FAILURE in harness h_%s: %s" % (cid, pname, desc), src=src,
+            others = sorted(set(x[0] for x in failing[lab][1:]))
+            res["failures"].append(dict(label=lab, fn=(rel_fn[1] or name), msg="Kani check %s FAILURE in harness h_%s: %s%s" % (cid, pname, desc, (" (also in %s)" % others) if others else ""), src=src,
                                         clause=desc, rendered="Check %s\n - Status: FAILURE\n - Description: %s\n - Location: %s" % (cid, desc, loc),
                                         counterexample=cex, witness=w))
 
